@@ -178,7 +178,7 @@ PROPS["C02"] = {
 PROPS["C17"] = {
     "theorems": [
         {"name": "C17_open_detached_inplace", "status": "proved", "statement": "not Ok -> (Err, buffer unchanged)"},
-        {"name": "C17_open_detached", "status": "proved", "statement": "Err -> buffer = zeros |c| ++ untouched tail"},
+        {"name": "C17_open_detached", "status": "proved", "statement": "Err -> buffer unchanged (buffer shorter than the ciphertext) or = zeros |c| ++ untouched tail"},
         {"name": "C17_open_easy", "status": "proved", "statement": "Err -> buffer unchanged or zero prefix ++ untouched tail"},
         {"name": "C17_open_easy_inplace", "status": "proved", "statement": "Err -> buffer unchanged"},
         {"name": "C17_stream_pull", "status": "proved", "statement": "not Ok -> (Err, state, buffer, tag variable) all unchanged"},
@@ -210,7 +210,7 @@ PROPS["C03"] = {
 
 PROPS["C04"] = {
     "theorems": [
-        {"name": "C04_open_easy_total", "status": "proved", "statement": "with an output buffer of at least |c|-16 bytes, open_easy is Ok or Err for every byte string"},
+        {"name": "C04_open_easy_total", "status": "proved", "statement": "forall byte strings and forall message buffers of ANY length (shorter than the ciphertext included, fix 90966b5): crypto_secretbox_open_easy is Ok or Err, never a panic"},
         {"name": "C04_open_easy_inplace_total", "status": "proved", "statement": "open_easy_inplace never panics"},
         {"name": "C04_stream_pull_total", "status": "proved", "statement": "classic pull never panics"},
         {"name": "C04_stream_obj_pull_total", "status": "proved", "statement": "object pull never panics"},
